@@ -12,7 +12,7 @@ R: TLC enumerates the cases (block layout x per-block gradient scale classes x c
 from harness import core
 
 LEVEL = "model_checking"
-TOL = {"blocked_vs_leaves": 1e-4, "common_factor": 1e-4, "companion": 1e-4}
+TOL = {"blocked_vs_leaves": 1e-4, "common_factor": 1e-4, "companion": 1e-4, "companion_sharded_compressed": 1e-3}
 
 
 def run(ck):
@@ -28,7 +28,7 @@ def run(ck):
     if quick and i % 2:          # quick: every other case (all layouts x scales still covered)
       continue
     for opt in ("ds", "tf"):
-      jobs.append({"opt": opt, "case": c, "seed": ck.seed * 1000 + i, "quick": quick, "eigh": bool((i // 2) % 2),
+      jobs.append({"opt": opt, "case": c, "seed": ck.seed * 1000 + i, "quick": quick, "eigh": bool((i // 2) % 2), "shard_leg": (i % 8 == 0),
                    "graft": {"ds": ["SGD", "RMSPROP", "ADAGRAD"][i % 3], "tf": ["SGD", "RMSPROP"][i % 2]}[opt]})
   ck.sample({"case_from_TLC": cases[3], "meaning": "blocked target, per-block scales, companion"})
   res = core.run_workers("harness.workers.blocks_indep", jobs, work=ck.work)
